@@ -24,7 +24,7 @@ ASSUMPTIONS = ['pysam VariantFile / tabix are trusted', 'truth is only demanded 
                'positions >= 0 are queried (position -1 is an internal sentinel)']
 MIN_NONTRIVIAL = {'quick': 1500, 'thorough': 100000}
 REQUIRED_MONITORS = ['ret:getAllelesAt', 'ret:has_location', 'mode:eager', 'mode:lazy', 'mode:cache_write', 'mode:cache_read',
-                     'mode:cache_flag_without_lazy', 'history:cache_from_other_config', 'history:cache_from_other_sample_selection', 'config:empty_sample_selection', 'config:cache_name_over_255_bytes', 'oracle:clean_sites', 'evicted_contig_revisited', 'tagger:runs', 'oracle:DA_compared', 'fault:cache_close_failures', 'query:contig_listed_by_other_variant_files_only']
+                     'mode:cache_flag_without_lazy', 'history:cache_from_other_config', 'history:cache_from_other_sample_selection', 'config:empty_sample_selection', 'config:cache_name_over_255_bytes', 'oracle:clean_sites', 'evicted_contig_revisited', 'tagger:runs', 'oracle:DA_compared', 'fault:cache_close_failures', 'query:contig_listed_by_other_variant_files_only', 'config:sample_names_with_blanks']
 SHARD_TIMEOUT = {'quick': 600, 'thorough': 3600}
 
 
@@ -134,11 +134,18 @@ def run_tagger_case(case):
     return acc
 
 
+BLANK = [0]
+
+
 def gen_vcf(r, path, long_panel=False):
     contigs = [f'chr{j + 1}' for j in range(r.randint(1, 3))]
     if r.random() < 0.4:
         contigs.append(r.choice(['chrUn_KI270302v1', 'chr1_KI270706v1_random', 'ERCC-00002', 'HLA-A*01:01:01:01', 'HLA-B*07:02', 'HLA-A*01:01:01:01']))
     samples = [f'S{j}' for j in range(r.randint(1, 4))]
+    if r.random() < 0.3:
+        # sample names as people write them: with a blank (the VCF header line is tab separated, so this is legal)
+        samples = [f'{nm} {r.choice(["A", "EiJ", "rep 2"])}' if r.random() < 0.7 else nm for nm in samples]
+        BLANK[0] += 1
     if long_panel:
         # a panel of many strains with descriptive names: the name of the cache file (contig + selected samples) grows past the limit of the
         # file system, the cache cannot be written - the answers must not change
@@ -234,7 +241,9 @@ def run_case(case):
     r = rng(case['seed'], 'C18', case['i'])
     with Scratch('c18') as d:
         plain = os.path.join(d, 'v.vcf')
+        BLANK[0] = 0
         contigs, samples, rows = gen_vcf(r, plain, long_panel=(case['i'] % 7 == 3))
+        acc.count('config:sample_names_with_blanks', BLANK[0])
         select = None if r.random() < 0.5 else sorted(r.sample(samples, r.randint(1, len(samples))))
         if r.random() < 0.12:
             select = []     # the empty selection: nothing can be returned, in any mode
